@@ -155,6 +155,35 @@ enum Chunk {
     Templates(usize, usize),
     /// outer shift of the nested sub-word family
     Nested(usize),
+    /// bulk-copy opcode index of the copied-words family
+    Copied(usize),
+}
+
+const COPY_OPS: [u8; 4] = [0x37, 0x39, 0x3e, 0x3c];
+
+/// N bytes copied into memory by a bulk-copy instruction, then each copied word loaded and stored to its own slot: the
+/// words of a copy are at most 32 bytes each, whatever N is.
+fn copied_programs(opc: u8) -> Vec<(String, Vec<u8>)> {
+    let mut sizes: Vec<u64> = (0..=100).collect();
+    sizes.extend([127, 128, 129, 160, 393, 394, 395, 1000]);
+    let mut out = Vec::new();
+    for n in sizes {
+        for dst in [0x80u64, 0, 1] {
+            for src in [0u64, 4] {
+                let mut t: Vec<Tok> = vec![p(n), p(src), p(dst)];
+                if opc == 0x3c {
+                    t.push(o(op::CALLER));
+                }
+                t.push(o(opc));
+                let words = ((n + 31) / 32).min(4);
+                for i in 0..words {
+                    t.extend([p(dst + 32 * i), o(op::MLOAD), p(i), o(op::SSTORE)]);
+                }
+                out.push((format!("copy of {n} bytes by opcode {opc:#04x} from {src} to {dst:#x}, {words} word(s) stored"), assemble(&t)));
+            }
+        }
+    }
+    out
 }
 
 fn nested_outer_shifts() -> Vec<u64> {
@@ -211,6 +240,9 @@ fn plan(_tier: Tier) -> Vec<Chunk> {
     }
     for i in 0..nested_outer_shifts().len() {
         v.push(Chunk::Nested(i));
+    }
+    for i in 0..COPY_OPS.len() {
+        v.push(Chunk::Copied(i));
     }
     v
 }
@@ -277,6 +309,11 @@ impl Check for C12 {
                     true
                 });
             }
+            Chunk::Copied(i) => {
+                for (desc, code) in copied_programs(COPY_OPS[i]) {
+                    run(ctx, "copied_words", &code, &|| desc.clone());
+                }
+            }
             Chunk::Nested(i) => {
                 for (desc, code, beyond) in nested_programs(nested_outer_shifts()[i]) {
                     run_classified(ctx, "nested_sub_words", &code, &|| desc.clone(), if beyond { Some("region-begins-beyond-its-container") } else { None });
@@ -302,7 +339,8 @@ impl Check for C12 {
             "all stack-safe token sequences <= {} over {} mask-and-shift tokens (SLOAD 0, CALLDATALOAD, 5 masks incl. one at bits \
              248..255 and the full word, SHR/SHL by 0, 8, 96, 248, 250, 255, 256, 300, 2^64-1, division / multiplication by 2^8, \
              2^96, 2^248, 2^255, OR, DUP1, SWAP1, SSTORE to slot 0 / 1) and {} pipeline templates x B x B (|B| = {}), and the nested sub-word family (a field of 8..160 bits taken out of a field of 8..248 bits of slot 0, \
-             outer shift 0..255, inner shift 0..outer width, read or stored): on every returned \
+             outer shift 0..255, inner shift 0..outer width, read or stored), and the copied-words family (CALLDATACOPY / CODECOPY / RETURNDATACOPY / EXTCODECOPY of 0..100, 127..129, 160, 393..395, 1000 bytes, \
+             each copied word loaded and stored to its own slot): on every returned \
              layout the (slot, offset) sequence is non-decreasing, every offset is < 256 and offset + width <= 256 for every type \
              with a known width. non-trivial = layout with an entry at a non-zero bit offset; distinct by program",
             if tier.thorough() { 5 } else { 4 },
